@@ -35,16 +35,16 @@ func implFromRequest(req string) (impl string, ok bool) {
 	case "sm3.sum":
 		m := b(1)
 		return try(func() string { x := sm3.SumSM3(m); return fmt.Sprintf("%x", x[:]) }), true
-	case "sm2.sign":
+	case "sm2.sign", "sm2.sign.fiat":
 		return implSignHashed(parseScript(f[3]), b(1), b(2)), true
-	case "sm2.verify":
+	case "sm2.verify", "sm2.verify.fiat":
 		return implVerifyHashed(b(1), b(2), b(3), b(4), b(5)), true
 	case "sm2.genkey":
 		if f[1] == "nil" {
 			return implGenKey(nil, true), true
 		}
 		return implGenKey(parseScript(f[1]), false), true
-	case "sm2.derive":
+	case "sm2.derive", "sm2.derive.fiat":
 		return implDerive(b(1)), true
 	case "sm2.testkey":
 		k := b(1)
